@@ -476,3 +476,61 @@ func TestVerifC10Random(t *testing.T) {
 	sort.Strings(ks)
 	m.Note("operation kinds exercised: %s", strings.Join(ks, ","))
 }
+
+// TestVerifC10LongHistory: one wheel, tens of thousands of set/fire/remove cycles with unique
+// keys, so that the wheel's timer index (SafeMap) goes through its deletion-count driven
+// migrations (>= 10000 deletions; with fewer and with more than 1000 live entries) while the
+// tick-exact oracle keeps running.
+func TestVerifC10LongHistory(t *testing.T) {
+	m := vk.New(t, "C10", "long histories on one wheel: 24k-40k cycles of SetTimer(unique key) / occasional MoveTimer, RemoveTimer / tick, with 5 or 1500 long-lived entries kept pending, ending in a run-out; exercises the timer index across its internal migrations; same tick-exact oracle")
+	defer m.Done()
+	n := vk.N(2, 24)
+	r := m.Rand("long")
+	for idx := 1; idx <= n; idx++ {
+		slots := []int{7, 60, 300}[r.Intn(3)]
+		resident := []int{5, 1500}[idx%2]
+		cycles := 24000 + r.Intn(16001)
+		var ops []c10Op
+		key := 1000
+		for i := 0; i < resident; i++ {
+			key++
+			ops = append(ops, c10Op{Op: "set", K: key, V: key, D: int64(cycles+50+r.Intn(slots*3)) * 1000})
+		}
+		var recent []int
+		for i := 0; i < cycles; i++ {
+			key++
+			ops = append(ops, c10Op{Op: "set", K: key, V: key, D: int64(1+r.Intn(slots+3)) * 1000})
+			recent = append(recent, key)
+			if len(recent) > 8 {
+				recent = recent[1:]
+			}
+			switch r.Intn(10) {
+			case 0:
+				ops = append(ops, c10Op{Op: "move", K: recent[r.Intn(len(recent))], D: int64(1+r.Intn(2*slots)) * 1000})
+			case 1:
+				ops = append(ops, c10Op{Op: "remove", K: recent[r.Intn(len(recent))]})
+			}
+			ops = append(ops, c10Op{Op: "tick"})
+		}
+		for j := 0; j < 4*slots+60; j++ {
+			ops = append(ops, c10Op{Op: "tick"})
+		}
+		if idx%3 == 0 {
+			ops = append(ops, c10Op{Op: "drain"}, c10Op{Op: "tick"}, c10Op{Op: "stop"})
+		}
+		if !m.Only(300000 + idx) {
+			continue
+		}
+		sc := c10Scenario{Slots: slots, Ops: ops}
+		f, ok := runC10(m, 300000+idx, sc)
+		if !ok {
+			return
+		}
+		m.Case(vk.Digest(slots, resident, cycles, idx), f > 10000)
+		m.Count("fires", int64(f))
+		m.Count("cycles", int64(cycles))
+		if m.WantSample() {
+			m.Sample(map[string]any{"slots": slots, "resident_entries": resident, "cycles": cycles, "fires_observed": f})
+		}
+	}
+}
